@@ -336,6 +336,13 @@ def run(ctx: Ctx):
     # signature of every later scheme, and `arguments += [...]` in the caller would grow the remembered list)
     check_generator_purity(ctx, "R05.f", only={"_scheme_arguments", "_rhs_arguments", "scheme"}, classes=(("codegen/base.py", "CodeGenerator"), ("codegen/python.py", "PythonCodeGenerator"), ("codegen/c.py", "CCodeGenerator"), ("codegen/jax.py", "JaxCodeGenerator")))
     argument_orders(ctx, "R05.f")
+    ctx.rule("R05.h", "the step function is complete for every model: the number of values it returns is the number of states (not of the states that survive remove_unused), and it unpacks every state it reads - only rhs filters the unpacking, and liveness is `name in ODE.dependents()`", floor=10)
+    from .c03 import return_arity
+    from .c12 import liveness_rules
+
+    return_arity(ctx, "R05.h")
+    liveness_rules(ctx, {"a": "R05.h", "b": "R05.h"}, declare=False)
+    common.check_scheme_independence(ctx, "R05.h")
     ctx.rule("R05.g", "the jax step returns the slots of its body in slot order (_values_0 .. _values_{n-1})", floor=3)
     from .c03 import jax_template
 
